@@ -144,29 +144,43 @@ def excToExn : PyVal → Exn
   | .exc t m e => .raw "resolver" t m e
   | _ => .raw "resolver" false "" []
 
+def resolverResult (spec : ResolverSpec) (parent : PyVal) (fieldName : String) (args : List (String × PyVal)) :
+    Except Exn PyVal :=
+  match spec with
+  | .default => .ok (defaultResolve parent fieldName)
+  | .const v => .ok v
+  | .raise e => .error (excToExn e)
+  | .parentKey k => .ok (match parent with | .dict kvs => (lookupKV k kvs).getD .none | _ => .none)
+  | .argEcho a => .ok ((lookupKV a args).getD .none)
+
+/-- `isinstance(result, Exception): raise result` -/
+def raiseIfExc : Except Exn PyVal → Except Exn PyVal
+  | .ok (.exc t m e) => .error (.raw "resolver" t m e)
+  | r => r
+
+def logCall (spec : ResolverSpec) (coord : String) (path : List PathSeg) (parent : PyVal)
+    (args : List (String × PyVal)) (st : St) : St :=
+  match spec with
+  | .default => st
+  | _ => { st with calls := st.calls ++ [⟨coord, path, parent, args⟩] }
+
+def argErrors (errs : List (String × Loc)) : Exn :=
+  .multi (errs.map fun e => ⟨[], [e.2], true, "", [], "argument:" ++ e.1⟩)
+
+def resolverOf (env : Env) (coord : String) : ResolverSpec :=
+  match env.resolvers.find? (fun p => p.1 == coord) with
+  | some p => p.2
+  | none => .default
+
 /-- `resolve_field_value_or_error` (+ the `isinstance(result, Exception): raise` of the caller) -/
 def resolveValue (fuel : Nat) (ctx : Ctx) (tn : String) (fd : FieldDef) (parent : PyVal)
     (nodes : List Selection) (path : List PathSeg) (st : St) : Except Exn PyVal × St :=
-  let node := nodes.head!
-  match coerceArguments fuel ctx.S ctx.o fd.args node.floc node.fargs ctx.vars with
-  | .error errs =>
-    (.error (.multi (errs.map fun e => ⟨[], [e.2], true, "", [], "argument:" ++ e.1⟩)), st)
+  match coerceArguments fuel ctx.S ctx.o fd.args nodes.head!.floc nodes.head!.fargs ctx.vars with
+  | .error errs => (.error (argErrors errs), st)
   | .ok args =>
     if fd.name == "__typename" then (.ok (.str tn), st) else
-    let coord := tn ++ "." ++ fd.name
-    let spec := (ctx.env.resolvers.find? (fun p => p.1 == coord)).map (·.2) |>.getD .default
-    let st' := match spec with
-      | .default => st
-      | _ => { st with calls := st.calls ++ [⟨coord, path, parent, args⟩] }
-    let v : Except Exn PyVal := match spec with
-      | .default => .ok (defaultResolve parent fd.name)
-      | .const v => .ok v
-      | .raise e => .error (excToExn e)
-      | .parentKey k => .ok (match parent with | .dict kvs => (lookupKV k kvs).getD .none | _ => .none)
-      | .argEcho a => .ok ((lookupKV a args).getD .none)
-    match v with
-    | .ok (.exc t m e) => (.error (.raw "resolver" t m e), st')
-    | r => (r, st')
+    (raiseIfExc (resolverResult (resolverOf ctx.env (tn ++ "." ++ fd.name)) parent fd.name args),
+     logCall (resolverOf ctx.env (tn ++ "." ++ fd.name)) (tn ++ "." ++ fd.name) path parent args st)
 
 /-! ### errors -/
 
@@ -275,6 +289,78 @@ def orderBy (defs : List FieldJob) (kvs : List (String × PyVal)) : List (String
 def fieldJobs (S : Schema) (tn : String) (collected : Collected) : List FieldJob :=
   collected.filterMap fun kn => (findFieldDef S tn kn.2.head!.fname).map fun fd => (kn.1, kn.2, fd)
 
+abbrev Rec := Job → St → Except Exn PyVal × St
+
+/-- one list item: `complete_value_catching_error(item, …, Path(path, index), item_type, inner)` -/
+def itemStep (rec : Rec) (t : TypeRef) (pt fname : String) (nodes : List Selection) (path : List PathSeg)
+    (ix : Nat × PyVal) (st : St) : Res × St :=
+  -- an exception instance as item value is raised
+  match ix.2 with
+  | .exc t' m e => catchField t.isNonNull nodes (path ++ [PathSeg.idx ix.1]) (.error (.raw "resolver" t' m e), st)
+  | _ =>
+    catchField t.isNonNull nodes (path ++ [PathSeg.idx ix.1])
+      (rec (.complete t pt fname nodes (path ++ [PathSeg.idx ix.1]) ix.2) st)
+
+/-- one field of a selection set: resolve, complete, catch -/
+def fieldStep (rec : Rec) (fuel : Nat) (ctx : Ctx) (tn : String) (parent : PyVal) (path : List PathSeg)
+    (d : FieldJob) (st : St) : (String × Res) × St :=
+  let p := path ++ [PathSeg.key d.1]
+  match resolveValue fuel ctx tn d.2.2 parent d.2.1 p st with
+  | (.error e, st1) =>
+    let r := catchField d.2.2.type.isNonNull d.2.1 p (.error e, st1)
+    ((d.1, r.1), r.2)
+  | (.ok v, st1) =>
+    let r := catchField d.2.2.type.isNonNull d.2.1 p (rec (.complete d.2.2.type tn d.2.2.name d.2.1 p v) st1)
+    ((d.1, r.1), r.2)
+
+/-- completion of a list value -/
+def completeList (rec : Rec) (t : TypeRef) (pt fname : String) (nodes : List Selection) (path : List PathSeg)
+    (items : List PyVal) (st : St) : Except Exn PyVal × St :=
+  let rs := mapSt (itemStep rec t pt fname nodes path) (enumFrom 0 items) st
+  match gatherRes rs.1 with
+  | .ok vs => (.ok (.list vs), rs.2)
+  | .error es => (.error (.multi es), rs.2)
+
+/-- `execute_fields_serially` / `execute_fields` over the collected fields -/
+def executeFields (rec : Rec) (fuel : Nat) (ctx : Ctx) (tn : String) (parent : PyVal) (path : List PathSeg)
+    (defs : List FieldJob) (serial : Bool) (st : St) : Except Exn PyVal × St :=
+  if serial then
+    -- execute_fields_serially: a raising field aborts the rest
+    match serialSt (fieldStep rec fuel ctx tn parent path) defs st with
+    | (.ok kvs, st') => (.ok (.dict kvs), st')
+    | (.error es, st') => (.error (.multi es), st')
+  else
+    -- execute_fields: non-concurrent fields are awaited inline while the coroutines are created (a raise
+    -- propagates at once: the deferred ones are never started); concurrent ones are gathered afterwards
+    match serialSt (fieldStep rec fuel ctx tn parent path) (defs.filter fun d => !d.2.2.parentConc) st with
+    | (.error es, st1) => (.error (.multi es), st1)
+    | (.ok kv1, st1) =>
+      let rs := mapSt (fieldStep rec fuel ctx tn parent path) (defs.filter fun d => d.2.2.parentConc) st1
+      match gatherKV rs.1 with
+      | .error es => (.error (.multi es), rs.2)
+      | .ok kv2 => (.ok (.dict (orderBy defs (kv1 ++ kv2))), rs.2)
+
+/-- completion of a non-null leaf / composite value of named type `tn` -/
+def completeNamed (rec : Rec) (fuel : Nat) (ctx : Ctx) (tn pt fname : String) (nodes : List Selection)
+    (path : List PathSeg) (v : PyVal) (st : St) : Except Exn PyVal × St :=
+  match ctx.S.findType tn with
+  | some (.scalar _) =>
+    match scalarOut ctx.o tn v with
+    | .ok .undef => (.error (.raw "leaf" false "" []), st)
+    | .ok r => (.ok r, st)
+    | .error _ => (.error (.raw "leaf" false "" []), st)
+  | some (.enum _ vals) =>
+    match v with
+    | .str s => if vals.contains s then (.ok (.str s), st) else (.error (.raw "enum" false "" []), st)
+    | _ => (.error (.raw "enum" false "" []), st)
+  | some (.object _ _ _) =>
+    rec (.fields tn v path (collectSubfields fuel ctx tn nodes) false) st
+  | some (.interface _ _) | some (.union _ _) =>
+    match validRuntimeType ctx.S tn (resolveTypeName ctx pt fname tn v) with
+    | none => (.error (abstractErr nodes), st)
+    | some rt => rec (.fields rt v path (collectSubfields fuel ctx rt nodes) false) st
+  | _ => (.ok .none, st)
+
 def run : Nat → Ctx → Job → St → Except Exn PyVal × St
   | 0, _, _, st => (.error (.raw "fuel" false "" []), st)
   | n+1, ctx, job, st =>
@@ -288,66 +374,14 @@ def run : Nat → Ctx → Job → St → Except Exn PyVal × St
       | .list t =>
         match v with
         | .none => (.ok .none, st)
-        | .list items =>
-          let rs := mapSt (fun (ix : Nat × PyVal) st =>
-              -- `complete_value_catching_error`: an exception instance as item value is raised
-              match ix.2 with
-              | .exc t' m e => catchField t.isNonNull nodes (path ++ [PathSeg.idx ix.1]) (.error (.raw "resolver" t' m e), st)
-              | _ =>
-              catchField t.isNonNull nodes (path ++ [PathSeg.idx ix.1])
-                (run n ctx (.complete t pt fname nodes (path ++ [PathSeg.idx ix.1]) ix.2) st))
-            (enumFrom 0 items) st
-          match gatherRes rs.1 with
-          | .ok vs => (.ok (.list vs), rs.2)
-          | .error es => (.error (.multi es), rs.2)
+        | .list items => completeList (run n ctx) t pt fname nodes path items st
         | _ => (.error (.raw "not-iterable" false "" []), st)
       | .named tn =>
         match v with
         | .none => (.ok .none, st)
-        | _ =>
-        match ctx.S.findType tn with
-        | some (.scalar _) =>
-          match scalarOut ctx.o tn v with
-          | .ok .undef => (.error (.raw "leaf" false "" []), st)
-          | .ok r => (.ok r, st)
-          | .error _ => (.error (.raw "leaf" false "" []), st)
-        | some (.enum _ vals) =>
-          match v with
-          | .str s => if vals.contains s then (.ok (.str s), st) else (.error (.raw "enum" false "" []), st)
-          | _ => (.error (.raw "enum" false "" []), st)
-        | some (.object _ _ _) =>
-          run n ctx (.fields tn v path (collectSubfields (n+1) ctx tn nodes) false) st
-        | some (.interface _ _) | some (.union _ _) =>
-          match validRuntimeType ctx.S tn (resolveTypeName ctx pt fname tn v) with
-          | none => (.error (abstractErr nodes), st)
-          | some rt => run n ctx (.fields rt v path (collectSubfields (n+1) ctx rt nodes) false) st
-        | _ => (.ok .none, st)
+        | _ => completeNamed (run n ctx) (n+1) ctx tn pt fname nodes path v st
     | .fields tn parent path collected serial =>
-      -- one field: resolve, complete, catch
-      let one := fun (d : FieldJob) (st : St) =>
-        let p := path ++ [PathSeg.key d.1]
-        match resolveValue (n+1) ctx tn d.2.2 parent d.2.1 p st with
-        | (.error e, st1) => ((d.1, (catchField d.2.2.type.isNonNull d.2.1 p (.error e, st1)).1),
-                              (catchField d.2.2.type.isNonNull d.2.1 p (.error e, st1)).2)
-        | (.ok v, st1) =>
-          let r := catchField d.2.2.type.isNonNull d.2.1 p (run n ctx (.complete d.2.2.type tn d.2.2.name d.2.1 p v) st1)
-          ((d.1, r.1), r.2)
-      let defs := fieldJobs ctx.S tn collected
-      if serial then
-        -- execute_fields_serially: a raising field aborts the rest
-        match serialSt one defs st with
-        | (.ok kvs, st') => (.ok (.dict kvs), st')
-        | (.error es, st') => (.error (.multi es), st')
-      else
-        -- execute_fields: non-concurrent fields are awaited inline while the coroutines are created (a raise
-        -- propagates at once: the deferred ones are never started); concurrent ones are gathered afterwards
-        match serialSt one (defs.filter fun d => !d.2.2.parentConc) st with
-        | (.error es, st1) => (.error (.multi es), st1)
-        | (.ok kv1, st1) =>
-          let rs := mapSt one (defs.filter fun d => d.2.2.parentConc) st1
-          match gatherKV rs.1 with
-          | .error es => (.error (.multi es), rs.2)
-          | .ok kv2 => (.ok (.dict (orderBy defs (kv1 ++ kv2))), rs.2)
+      executeFields (run n ctx) (n+1) ctx tn parent path (fieldJobs ctx.S tn collected) serial st
 
 /-! ### request level -/
 
